@@ -8,7 +8,7 @@ use serde_json::{json, Value};
 
 const NAME_CHARS: [&str; 8] = ["a", "b", "Z", "_", "1", "é", ":", "-"];
 // includes characters that look like white space but are not (U+FEFF, U+200B) and one that is (U+00A0)
-const ARG_CHARS: [&str; 21] = ["'", "`", "a", "b", " ", "#", "\"", "\\", "\n", "\r", "\t", "=", "$", "{", "}", "%", "é", ":", "\u{feff}", "\u{200b}", "\u{a0}"];
+const ARG_CHARS: [&str; 24] = ["\u{3000}", "\u{2028}", "0", "'", "`", "a", "b", " ", "#", "\"", "\\", "\n", "\r", "\t", "=", "$", "{", "}", "%", "é", ":", "\u{feff}", "\u{200b}", "\u{a0}"];
 
 fn gen_name(r: &mut Rng, first_ok: bool) -> String {
     loop {
@@ -48,7 +48,9 @@ pub fn gen(r: &mut Rng) -> Value {
         }
         1 | 2 => {
             let bad = ["x \"abc", "x \"a\\q\"", "x a\\", "\"lbl", ":\"l x", "o\\ut = x", "out = \"cmd\"", "!", "!nope x", "x \\$a", "a\\b = x", "!  ", "!Print x", "x \"a\\", ":l \"o = x",
-                "!print \"abc", "!print a\\q", "!include_files \"x", "!print x \\$a", "!print a\\"];
+                "!print \"abc", "!print a\\q", "!include_files \"x", "!print x \\$a", "!print a\\",
+                // malformed part directly after a closing quote; pre-processor lines with characters outside ASCII
+                "x \"a\"\"", "x \"text\"\\", "x \"a\" \"b\"\\q", "!print \"日本語のテキストです", "!définir ключ значение данные", "!print é \\q", "!нет"];
             let n_before = r.below(3);
             let lead = ["", "", " ", "\t", "   ", " \t "];
             let eol = ["\n", "\n", "\r\n"];
@@ -68,7 +70,10 @@ fn sp(n: u64) -> String {
 
 /// can this value be written without quotes (escape-free)?
 fn plain_ok(v: &str, first_arg: bool) -> bool {
-    !v.is_empty() && !v.starts_with('"') && !(first_arg && v.starts_with('=')) && v.chars().all(|c| c != '\\' && c != ' ' && c != '#' && !c.is_whitespace())
+    // (the only separator is the blank U+0020: other white space - tab, U+00A0, U+3000 .. - may stand unquoted INSIDE a
+    // value; at its ends it would be trimmed with the line)
+    let ends_ok = !v.chars().next().map(|c| c.is_whitespace()).unwrap_or(false) && !v.chars().last().map(|c| c.is_whitespace()).unwrap_or(false);
+    !v.is_empty() && ends_ok && !v.starts_with('"') && !(first_arg && v.starts_with('=')) && v.chars().all(|c| c != '\\' && c != ' ' && c != '#' && c != '\n' && c != '\r')
 }
 
 fn render_arg(a: &Value, first: bool) -> String {
@@ -174,8 +179,8 @@ pub fn run(input: &Value) -> Option<Value> {
                 }
             };
             let expect = match bad {
-                "x \"abc" | "!print \"abc" | "!include_files \"x" => "MissingEndQuotes",
-                "x \"a\\q\"" | "x a\\" | "x \\$a" | "x \"a\\" | "!print a\\q" | "!print x \\$a" | "!print a\\" => "ControlWithoutValidValue",
+                "x \"abc" | "!print \"abc" | "!include_files \"x" | "x \"a\"\"" | "!print \"日本語のテキストです" => "MissingEndQuotes",
+                "x \"a\\q\"" | "x a\\" | "x \\$a" | "x \"a\\" | "!print a\\q" | "!print x \\$a" | "!print a\\" | "x \"text\"\\" | "x \"a\" \"b\"\\q" | "!print é \\q" => "ControlWithoutValidValue",
                 "\"lbl" | ":\"l x" | "out = \"cmd\"" | ":l \"o = x" => "InvalidQuotesLocation",
                 "o\\ut = x" | "a\\b = x" => "InvalidControlLocation",
                 "!" | "!  " => "PreProcessNoCommandFound",
